@@ -541,6 +541,10 @@ class C12(Prop):
         "C12: the model follows the code after the /repo commits 1ef2d1a (C12-beyond-R1-key), c28a67e (C12-signed-zero-upper), "
         "ab50530 (C12-matrix-row-order, superseded by ef4f38d), ef4f38d (C12-matrix-index-layout), 9e46386 (C12-goodman-default-M2-keeps-operand) "
         "and 3b0f832 (C12-five-segment-row-pairing); all of them are committed",
+        "C12: sequences ('seq' cases: one parameter object / collective / histogram / HaighDiagram used again after in-place changes) are "
+        "oracle-only; an argument counts as changed by a call when its VALUES or INDEX differ afterwards; names, dtypes and added informational "
+        "keys / columns are counted (seq_metadata_changes) but are no failure unless a later call with the same object differs from the call "
+        "with fresh copies",
         "C12: the mean classes of the matrix result (means_bins) are checked by the oracle (every class on the target ray), not by the model",
         "C12: a matrix class whose amplitude is below 1e-9 of its mean / of the largest range (from- and to-mid equal up to rounding) rounds to "
         "R = 1.0 exactly - the cycle of amplitude 0, outside the quantifier; the oracle does not compare interfaces on it (the class sums and the "
@@ -561,7 +565,7 @@ class C12(Prop):
                       "targets": {"-inf": 0, "gt1": 0, "le0": 0, "0..1": 0},
                       "border_cycles": 0, "neginf_cycles": 0, "beyond1_cycles": 0, "negzero_upper_cycles": 0, "default_M2_cases": 0,
                       "two_goal_cases": 0, "guard_skipped": 0, "frm_layouts": {}, "frm_keys": 0,
-                      "mat_layouts": {}, "mat_params": {}, "mat_orders": {}, "mat_classes_total": 0, "mat_empty": 0, "oracle_checks": 0, "refused_cases": 0, "surplus_diagram_cases": 0, "noise_amplitude_classes": 0,
+                      "mat_layouts": {}, "mat_params": {}, "mat_orders": {}, "mat_classes_total": 0, "mat_empty": 0, "oracle_checks": 0, "refused_cases": 0, "seq_cases": 0, "seq_calls": 0, "seq_metadata_changes": 0, "surplus_diagram_cases": 0, "noise_amplitude_classes": 0,
                       "split_known_mechanism": 0}
         self.exhaustive = False
 
@@ -850,6 +854,39 @@ class C12(Prop):
         return {"k": "mat", "goal": goal, "layout": layout, "ex": ex, "ey": ey, "counts": counts, "extras": extras, "order": order,
                 "par": par, "rows": rows, "nonzero_only": rng.random() < 0.4, "shuffle": rng.randrange(1 << 30) if rng.random() < 0.4 else None}
 
+    def gen_seq_case(self, rng):
+        """ONE parameter object / ONE collective / ONE histogram / ONE HaighDiagram used again and again, with in-place changes between
+        the calls (oracle only: every result = the result with fresh copies = closed form)."""
+        kind = rng.choice(["g", "g", "f"])
+        frame = rng.random() < 0.5
+        keys = [[e] for e in rng.sample([0, 1, 2, 3, 7, 10, 42], rng.choice([2, 3]))] if frame else [[0]]
+        rows = []
+        for _ in keys:
+            r = self.gen_goodman(rng) if kind == "g" else self.gen_five(rng)
+            rows.append([r[0], gpar(r)[1]] if kind == "g" else r)
+        iface = rng.choice(["rm", "rm", "ft"])
+        cyc = [self.enc_cycles(rng, iface, self.gen_cycles(rng, [kind, r], rng.choice([1, 2, 3]))) for r in rows]
+        cols = GNAMES if kind == "g" else FNAMES[:5]
+        steps = []
+        for _ in range(rng.choice([3, 4, 5])):
+            st = {"goal": enc(rng.choice([-1.0, 0.0, -INF, 0.5, -0.5, 1.0 / 3.0, 2.0, round(rng.uniform(-1.0, 0.95), 3)]))}
+            c = rng.random()
+            if c < 0.6:          # write parameters in place
+                col = rng.choice(cols)
+                v = round(rng.uniform(0.0, 0.9), 3)
+                if kind == "g" and col == "M2":
+                    v = round(rng.uniform(0.0, 0.3), 3)
+                st["par"] = [rng.randrange(len(keys)) if (frame and rng.random() < 0.7) else None, col, v]
+            elif c < 0.8:        # write a cycle in place
+                k = rng.randrange(len(keys))
+                st["cyc"] = [k, rng.randrange(len(cyc[k])), self.enc_cycles(rng, iface, self.gen_cycles(rng, [kind, rows[k]], 1))[0]]
+            elif c < 0.9:        # write a count of the histogram in place
+                st["cnt"] = [rng.randrange(6), float(rng.randrange(1, 40))]
+            steps.append(st)
+        order = list(range(len(steps)))
+        rng.shuffle(order)
+        return {"k": "seq", "kind": kind, "frame": frame, "keys": keys, "rows": rows, "iface": iface, "cyc": cyc, "steps": steps, "hd_order": order}
+
     def generate(self, rng, tier):
         n_cyc, n_frm, n_mat = (180, 50, 60) if tier == "quick" else (1700, 450, 500)
         cases = []
@@ -892,6 +929,8 @@ class C12(Prop):
             cases.append(self.gen_frm_case(rng))
         for _ in range(n_mat):
             cases.append(self.gen_mat_case(rng))
+        for _ in range(36 if tier == "quick" else 250):
+            cases.append(self.gen_seq_case(rng))
         for i, c in enumerate(cases):      # the expensive oracle parts (monotony, interfaces) on every 4th case
             if c["k"] == "cyc" and i % 4 == 0:
                 c["deep"] = True
@@ -910,6 +949,8 @@ class C12(Prop):
         return " ".join(toks)
 
     def model_lines(self, case):
+        if case["k"] == "seq":
+            return []          # sequences of calls on the same objects: oracle only (every single call is a 'cyc' / 'frm' / 'mat' situation)
         if case["k"] == "cyc":
             return [self._mst_line(case["iface"], case["diag"], case["goals"], case["cyc"])]
         if case["k"] == "frm":       # the model is per cycle: one line per key with that key's parameters
@@ -936,6 +977,8 @@ class C12(Prop):
 
     def _impl_lines(self, case):
         s = self.stats
+        if case["k"] == "seq":
+            return []
         if case["k"] == "cyc":
             s["cyc_cases"] += 1
             s["cycles"] += len(case["cyc"])
@@ -1078,6 +1121,8 @@ class C12(Prop):
         try:
             if case["k"] == "mat":
                 return self.oracle_mat(case)
+            if case["k"] == "seq":
+                return self.oracle_seq(case)
             if case["k"] == "frm":
                 return self.oracle_frm(case)
             return self.oracle_cyc(case)
@@ -1224,6 +1269,144 @@ class C12(Prop):
             e = hd.transform(pd.DataFrame({"range": [2 * a], "mean": [m]}), g0)["range"].to_numpy()[0] / 2.0
             if not close(rr, e, 1e-9, a):
                 return (f"histogram interface {rr} vs collective interface {e} for amplitude={a} mean={m} target R={g0}", "C12")
+        return None
+
+    # ---- the same objects used again after an in-place change
+    @staticmethod
+    def _snapshot(obj):
+        return (obj.copy(deep=True), list(obj.index.names), obj.dtypes.to_dict() if isinstance(obj, pd.DataFrame) else obj.dtype,
+                list(obj.columns) if isinstance(obj, pd.DataFrame) else obj.name)
+
+    def _intact(self, obj, snap):
+        """False when a call changed VALUES or INDEX (labels, order) of an argument - that alters what a later call with the same object
+        computes.  Metadata the property says nothing about (a renamed Series / level, a dtype, informational keys or columns added to the
+        caller's object) is only counted (stats seq_metadata_changes): whether it matters shows in the comparison with fresh copies."""
+        old = snap[0]
+        if not obj.index.equals(old.index):
+            return False
+        if isinstance(old, pd.DataFrame):
+            same = all(c in obj.columns for c in old.columns) and obj[list(old.columns)].astype(float).equals(old.astype(float))
+        else:
+            same = obj.astype(float).equals(old.astype(float))
+        if not same:
+            return False
+        if self._snapshot(obj)[1:] != snap[1:]:
+            self.stats["seq_metadata_changes"] += 1
+        return True
+
+    def oracle_seq(self, case):
+        """(a) ONE parameter object handed to the collective and the matrix accessor while its values are written in place;
+        (b) ONE collective frame / ONE histogram used again after an in-place change; (c) ONE HaighDiagram transformed several times in
+        another order; (d) no call changes its arguments.  Every result = the result with fresh deep copies of all arguments (bit-identical)
+        and = closed form / iso-damage walk for the values the objects hold at the time of the call."""
+        M = mst()
+        self.stats["seq_cases"] += 1
+        kind, frame, keys = case["kind"], case["frame"], case["keys"]
+        names = GNAMES if kind == "g" else FNAMES
+        cols = ["from", "to"] if case["iface"] == "ft" else ["range", "mean"]
+        rows = [list(r) for r in case["rows"]]
+        cyc = [[list(c) for c in cs] for cs in case["cyc"]]
+        kidx = pd.Index([k[0] for k in keys], name="element_id")
+        if frame:
+            par = pd.DataFrame(rows, columns=names, index=kidx, dtype=float)
+            lab = [(k[0], j) for k, cs in zip(keys, cyc) for j in range(len(cs))]
+            df = pd.DataFrame([[dec(c[0]), dec(c[1])] for cs in cyc for c in cs], columns=cols, dtype=float,
+                              index=pd.MultiIndex.from_tuples(lab, names=["element_id", "cycle_number"]))
+        else:
+            par = pd.Series(dict(zip(names, rows[0])), dtype=float)
+            lab = [(keys[0][0], j) for j in range(len(cyc[0]))]
+            df = pd.DataFrame([[dec(c[0]), dec(c[1])] for c in cyc[0]], columns=cols, dtype=float)
+        # histogram: dense 3 x 2 range/mean matrix (x element_id for a parameter frame)
+        lv = [pd.IntervalIndex.from_breaks([0.0, 1.0, 2.0, 3.0]), pd.IntervalIndex.from_breaks([-2.0, 0.0, 2.0])]
+        hidx = pd.MultiIndex.from_product(lv + ([kidx] if frame else []), names=["range", "mean"] + (["element_id"] if frame else []))
+        hist = pd.Series(np.arange(1.0, len(hidx) + 1.0), index=hidx, name="cycles")
+
+        def call_col(d, p, g):
+            acc = d.meanstress_transform
+            lc = acc.fkm_goodman(p, g) if kind == "g" else acc.five_segment(p, g)
+            return lc.amplitude.to_numpy(), lc.to_pandas()
+
+        def check_intact(what, objs):
+            for nm, (o, sn) in objs.items():
+                if not self._intact(o, sn):
+                    return (f"{what} changed the values or the index of its argument '{nm}'", "C12")
+            return None
+
+        hd_jobs = []
+        for n, st in enumerate(case["steps"]):
+            g = dec(st["goal"])
+            if "par" in st:
+                k, col, v = st["par"]
+                if frame and k is not None:
+                    par.loc[keys[k][0], col] = v
+                    rows[k][names.index(col)] = v
+                else:
+                    par[col] = v
+                    for r in rows:
+                        r[names.index(col)] = v
+            if "cyc" in st:
+                k, j, c = st["cyc"]
+                pos_ = lab.index((keys[k][0], j))
+                df.iloc[pos_, 0] = dec(c[0])
+                df.iloc[pos_, 1] = dec(c[1])
+                cyc[k][j] = list(c)
+            if "cnt" in st:
+                hist.iloc[st["cnt"][0] % len(hist)] = st["cnt"][1]
+            snaps = {"parameters": (par, self._snapshot(par)), "collective": (df, self._snapshot(df)), "histogram": (hist, self._snapshot(hist))}
+            where = f"call {n + 1} of {len(case['steps'])} on the same objects (after {[k for k in ('par', 'cyc', 'cnt') if k in st] or 'no change'}), target R={g}"
+            # ---- collective accessor: same objects vs fresh deep copies vs specification
+            self.stats["seq_calls"] += 1
+            amp, fr = call_col(df, par, g)
+            d = check_intact("the collective accessor", snaps)
+            if d:
+                return d
+            amp2, fr2 = call_col(df.copy(deep=True), par.copy(deep=True), g)
+            if len(amp) != len(amp2) or any(f2h(float(x)) != f2h(float(y)) for x, y in zip(amp, amp2)) or not fr.equals(fr2):
+                return (f"{where}: collective accessor gives {list(amp)}, with fresh copies of the same values {list(amp2)}", "C12")
+            by = dict(zip([t if isinstance(t, tuple) else (keys[0][0], t) for t in fr.index], zip(amp, fr["from"].to_numpy(), fr["to"].to_numpy())))
+            if frame and list(fr.index.names) != ["element_id", "cycle_number"]:
+                by = dict(zip([tuple(dict(zip(fr.index.names, t))[x] for x in ("element_id", "cycle_number")) for t in fr.index],
+                              zip(amp, fr["from"].to_numpy(), fr["to"].to_numpy())))
+            for i_k, (key, cs) in enumerate(zip(keys, cyc)):
+                diag = [kind, list(rows[i_k])]
+                segs = haigh_segments(diag)
+                for j, c in enumerate(cs):
+                    a, m = amp_mean(case["iface"], c)
+                    if a <= 0 or (key[0], j) not in by:
+                        continue
+                    r_, f_, t_ = by[(key[0], j)]
+                    dsc = self._check_cycle(case, diag, segs, g, a, m, float(r_), (float(f_) + float(t_)) / 2.0)
+                    if dsc not in (None, "skip"):
+                        return (f"{where}, element {key[0]} with the parameters it holds NOW {diag[1]}: " + dsc, "C12")
+            hd_jobs.append((g, df.copy(deep=True), amp))
+            # ---- matrix accessor (FKM-Goodman, -1 <= R < 1)
+            if kind == "g" and -1.0 <= g < 1.0:
+                self.stats["seq_calls"] += 1
+                res = hist.meanstress_transform.fkm_goodman(par, g).to_pandas()
+                d = check_intact("the matrix accessor", snaps)
+                if d:
+                    return d
+                res2 = hist.copy(deep=True).meanstress_transform.fkm_goodman(par.copy(deep=True), g).to_pandas()
+                if not (res.equals(res2) and res.index.equals(res2.index)):
+                    return (f"{where}: matrix accessor gives the class sums {list(res.to_numpy())}, with fresh copies of the same values "
+                            f"{list(res2.to_numpy())}", "C12")
+                if float(res.sum()) != float(hist.sum()):
+                    return (f"{where}: matrix accessor does not conserve the cycles: {float(hist.sum())} -> {float(res.sum())}", "C12")
+        # ---- (c) ONE HaighDiagram for the final parameters, used for all the recorded (target, collective) pairs in another order
+        make = M.HaighDiagram.fkm_goodman if kind == "g" else M.HaighDiagram.five_segment
+        hd = make(par.copy(deep=True))
+        for n in case["hd_order"] + case["hd_order"][:1]:
+            if n >= len(hd_jobs):
+                continue
+            g, d_, _ = hd_jobs[n]
+            sn = self._snapshot(d_)
+            one = hd.transform(d_, g)
+            if not self._intact(d_, sn):
+                return ("HaighDiagram.transform changed the collective it was given", "C12")
+            fresh = make(par.copy(deep=True)).transform(d_.copy(deep=True), g)
+            if not (one.equals(fresh) and one.index.equals(fresh.index)):
+                return (f"one HaighDiagram object used again (job {n}, target R={g}) gives {one['range'].tolist()}, a fresh diagram "
+                        f"{fresh['range'].tolist()}", "C12")
         return None
 
     def oracle_frm(self, case):
@@ -1402,6 +1585,14 @@ class C12(Prop):
 
     # ------------------------------------------------------------ shrinking
     def shrink(self, case, still_fails):
+        if case["k"] == "seq":
+            cur = case
+            for i in range(len(cur["steps"]) - 1, -1, -1):
+                if len(cur["steps"]) > 1:
+                    cand = dict(cur, steps=cur["steps"][:i] + cur["steps"][i + 1:], hd_order=list(range(len(cur["steps"]) - 1)))
+                    if still_fails(cand):
+                        cur = cand
+            return cur
         if case["k"] == "cyc":
             cur = case
             for i in range(len(cur["cyc"]) - 1, -1, -1):
